@@ -333,7 +333,7 @@ pub fn parent(inp: &str, outp: &str) {
     let exe = std::env::current_exe().unwrap();
     let mut start = 0usize;
     let limit = std::time::Duration::from_secs(std::env::var("TOTAL_TIMEOUT").ok().and_then(|x| x.parse().ok()).unwrap_or(30));
-    for _ in 0..300 {
+    for _ in 0..26 {
         let mut ch = std::process::Command::new(&exe).args(["total_child", inp, outp, &start.to_string()]).spawn().expect("spawn child");
         let mut last = (String::new(), std::time::Instant::now());
         let status = loop {
